@@ -70,7 +70,14 @@ def check(case):
         for x_axis in X_AXES:
             ctx = f"config={sc}/{ec} x_axis={x_axis} fnr={case['fnr']} fpr={case['fpr']} thr={case['thr']} nb_points={nb}"
             a_fnr = None if fnr is None else fnr.copy()
-            c = roc(o, fnr=a_fnr, fpr=fpr, thresholds=thr, nb_points=nb, x_axis=x_axis)
+            # the caller's threshold array: its own buffer, possibly read-only (a column of a frame
+            # under copy-on-write, np.broadcast_to output)
+            a_thr = None if thr is None else thr.copy()
+            if a_thr is not None and x_axis in ("fpr", "tnr", "frr", "tar"):
+                a_thr.setflags(write=False)
+            c = roc(o, fnr=a_fnr, fpr=fpr, thresholds=a_thr, nb_points=nb, x_axis=x_axis)
+            require(thr is None or np.array_equal(a_thr, thr, equal_nan=True), "roc:mutated-input",
+                    lambda: f"{ctx}: the caller's threshold array was changed to {a_thr.tolist()}")
             t = np.asarray(c.thresholds, dtype=float)
             require(len(c.fnr) == len(c.fpr) == len(t) and t.ndim == 1, "roc:lengths",
                     f"{ctx}: {len(c.fnr)}, {len(c.fpr)}, {len(t)}")
